@@ -40,12 +40,19 @@ pub struct DiagSide {
     /// highest ACK number this side emitted (relative to the peer's ISN)
     pub max_ack_emitted: u64,
     pub rst_seen: bool,
+    /// round (driver) / millisecond (fixture runs) of this side's last FIN emission
+    pub last_fin_emit_round: u64,
+    /// round in which an ACK covering this side's FIN was first delivered to it
+    pub fin_cover_round: Option<u64>,
 }
 
 #[derive(Clone, Debug, Default)]
 pub struct Diag {
     /// indexed by the direction the side *sends* in: [client, server]
     pub sides: [DiagSide; 2],
+    /// current round of the driver (millisecond in fixture runs), set by the
+    /// driver before it reports emissions and deliveries
+    pub round: u64,
 }
 
 impl Diag {
@@ -72,6 +79,7 @@ impl Diag {
             sx.a = sx.a.max(1);
         }
         let iss_y = self.sides[y].iss;
+        let round = self.round;
         let sx = &mut self.sides[x];
         let relseq = Self::rel(sx.iss, s.seq);
         if !s.flags.syn && relseq != u64::MAX {
@@ -81,6 +89,7 @@ impl Diag {
             if s.flags.fin {
                 sx.fin_rel = Some(relseq + s.payload.len() as u64);
                 sx.fin_emits += 1;
+                sx.last_fin_emit_round = round;
             }
         }
         if s.flags.ack {
@@ -104,6 +113,7 @@ impl Diag {
             self.sides[x].fin_delivered = true;
         }
         if s.flags.ack {
+            let round = self.round;
             let sy = &mut self.sides[y];
             sy.w = Some(s.window as u32);
             if sy.w_newest.map(|(o, _)| order > o).unwrap_or(true) {
@@ -116,6 +126,9 @@ impl Diag {
             let limit = sy.fin_rel.map(|f| f + 1).unwrap_or(sy.max_data_end);
             if ra != u64::MAX && ra > sy.a && ra <= limit.max(1) {
                 sy.a = ra;
+                if sy.fin_rel.map(|f| ra > f).unwrap_or(false) && sy.fin_cover_round.is_none() {
+                    sy.fin_cover_round = Some(round);
+                }
             }
         }
     }
@@ -149,7 +162,15 @@ impl Diag {
     /// emitted an ACK covering it, that ACK never reached the sender, and the
     /// sender retransmitted the FIN until it ran out of attempts. The peer
     /// (already Closed, no TIME_WAIT) never answers again.
-    pub fn fin_ack_lost_for_good(&self, dir: Dir, retx_max: u32) -> bool {
+    ///
+    /// "Never reached the sender" includes "reached it only after it had given
+    /// up": the retransmit sweep aborts a connection `retx_threshold` egress
+    /// passes after its last retransmission, so an ACK covering the FIN that is
+    /// delivered in round `last FIN emission + retx_threshold` or later (e.g. a
+    /// window update the Closed peer's TCB still emits when its application
+    /// finally reads) finds the sender already aborted. An ACK delivered before
+    /// that round would have stopped the abort and is not this defect.
+    pub fn fin_ack_lost_for_good(&self, dir: Dir, retx_max: u32, retx_threshold: u32) -> bool {
         let sx = &self.sides[dir.idx()];
         let sy = &self.sides[dir.rev().idx()];
         let Some(f) = sx.fin_rel else { return false };
@@ -163,6 +184,10 @@ impl Diag {
             && sx.fin_delivered
             && sy.fin_delivered
             && sy.max_ack_emitted > f
-            && sx.a <= f
+            && (sx.a <= f
+                || sx
+                    .fin_cover_round
+                    .map(|d| d >= sx.last_fin_emit_round + retx_threshold as u64)
+                    .unwrap_or(false))
     }
 }
